@@ -28,6 +28,7 @@ from .asttypes import (
     NamedExpr,
     ParamSpec,
     SetComp,
+    TypeIgnore,
     TypeVar,
     TypeVarTuple,
     arg,
@@ -41,7 +42,7 @@ from .traverse_next import NEXT_FUNCS
 from .traverse_prev import PREV_FUNCS
 
 
-_ASTS_LEAF_EXPR_CONTEXT_OR_BOOLOP          =  ASTS_LEAF_EXPR_CONTEXT | ASTS_LEAF_BOOLOP
+_ASTS_LEAF_EXPR_CONTEXT_OR_BOOLOP          =  ASTS_LEAF_EXPR_CONTEXT | ASTS_LEAF_BOOLOP | {TypeIgnore}  # TypeIgnore has no location (only a line number) so it does not pass the location filters either
 _ASTS_LEAF_EXPR_CONTEXT_OR_OP_OR_ARGUMENTS = (_ASTS_LEAF_EXPR_CONTEXT_OR_BOOLOP | ASTS_LEAF_OPERATOR |
                                               ASTS_LEAF_UNARYOP | ASTS_LEAF_CMPOP | {arguments})
 
